@@ -159,6 +159,12 @@ func VerifyFunc(ld *Loader, db *ContractDB, fn *ssa.Function, ct *FuncContract, 
 			}
 		} else if ct != nil {
 			for _, en := range ct.Ensures {
+				if hasProp(en.Props, "assumed") {
+					// a clause the callers may rely on but that is not proved here
+					ex.vc.Trust("ASSUMED specification of " + funcName(fn) + " (not proved): " + en.Text)
+					ex.abstracted["ASSUMED (not proved): ensures of "+funcName(fn)+": "+en.Text] = true
+					continue
+				}
 				for _, part := range ex.splitClauseE(fr, out, res, en) {
 					if sk, ok := ex.skolemWithHyps(fr, out, part); ok {
 						part.term = sk
@@ -602,8 +608,23 @@ func (ex *Exec) invConjuncts(fr *Frame, st *State, ld *LockDecl, ref string, own
 
 func (ex *Exec) onUnlock(st *State, fr *Frame, k string, recv Val, pos token.Pos) {
 	if top := ex.topFrame; top != nil && top.ct != nil && fr == top && st.lockSnap != nil {
+		thisLock := ""
+		if p, ok := recv.(*PtrI); ok {
+			if ld, _, _ := ex.lockDeclFor(p.A); ld != nil {
+				thisLock = ld.Owner + "." + ld.MuField
+			}
+		}
 		for _, cl := range top.ct.UnlockAsserts {
 			if want := siteOf(cl.Props); want > 0 && want != unlockOrdinal(top.fn, pos) {
+				continue
+			}
+			skip := false
+			for _, p := range cl.Props {
+				if strings.HasPrefix(p, "site=lock:") && strings.TrimPrefix(p, "site=lock:") != thisLock {
+					skip = true
+				}
+			}
+			if skip {
 				continue
 			}
 			term, ok := func() (t string, ok bool) {
